@@ -67,6 +67,8 @@ class RefModel:
         self.points0 = {k: v for k, v in case.get("points", {}).items()}
         self.points0.update(points or {})
         self.schedule = sorted(schedule or [], key=lambda x: x[0])
+        self._args = (constants, points, schedule, limit)
+        self._noise = 0.0
         self.val = {}  # name -> list of values by index
         self.sm = {}  # smooth/trend id -> list of averages by index
 
@@ -182,7 +184,26 @@ class RefModel:
         for c in E.children(t):
             self._smooth_nodes(c, acc)
 
-    def run(self):
+    def run(self, probe=True):
+        """the trajectory; with probe, a second run with rounding-sized noise injected into every stock update decides
+        whether the trajectory is well-conditioned (chaotic or unstable difference equations amplify the last digits of
+        any float implementation beyond the comparison tolerance): such cases are Fragile"""
+        val = self._run()
+        if probe:
+            other = RefModel(self.case, *self._args)
+            other.grid = list(self.grid)
+            other._noise = 1e-14
+            try:
+                val2 = other._run()
+            except E.Fragile:
+                raise E.Fragile("sensitive")
+            for nm, xs in val.items():
+                for a, b in zip(xs, val2[nm]):
+                    if isinstance(a, (int, float)) and isinstance(b, (int, float)) and abs(a - b) > 1e-10 * max(1.0, abs(a)):
+                        raise E.Fragile("sensitive")
+        return val
+
+    def _run(self):
         case = self.case
         aux = case["aux"]
         stocks = case["stocks"]
@@ -211,6 +232,8 @@ class RefModel:
                         v = init
                 else:
                     v = self.val[s["name"]][i - 1] + self.dt * self._stock_rate[s["name"]]
+                    if self._noise:
+                        v = v * (1.0 + (self._noise if i % 2 else -self._noise))
                 self._check(v)
                 self.val[s["name"]].append(v)
             # smooth states at i
@@ -242,6 +265,8 @@ class RefModel:
                     raise E.Fragile("T0")
                 cur = self.sm[sn[1]][i]
                 nxt = cur + self.dt * ((x - cur) / T)
+                if self._noise:
+                    nxt = nxt * (1.0 + (self._noise if i % 2 else -self._noise))
                 self._check(nxt)
                 self._sm_next[sn[1]] = nxt
         return self.val
